@@ -240,12 +240,14 @@ USER_OPS = ["create_group", "set_dataset", "delete", "set_attr", "del_attr", "co
 
 def gen_op(rng: random.Random, view: List[Dict[str, Any]], *, depth: int = 3,
            values: List[str] = None, weights: Dict[str, float] = None,
-           allow_copy_into_self: bool = True, attr_values: List[str] = None) -> Dict[str, Any]:
+           allow_copy_into_self: bool = True, attr_values: List[str] = None,
+           attr_keys: List[str] = None) -> Dict[str, Any]:
     """Pick an operation with arguments drawn from the current view (mostly valid)."""
     values = values or ["v1", "v2", "v3", "v4", "v5"]
     # attribute values: non-UTF-8 byte strings are excluded (known finding: IH5 copies
     # attributes through Python values and h5py hands such values out as surrogate-escaped str)
     attr_values = attr_values or [v for v in values if v != "v8"] or ["v1"]
+    attr_keys = attr_keys or ABSTRACT_ATTRS
     w = {"create_group": 3, "set_dataset": 4, "delete": 3, "set_attr": 3, "del_attr": 1.5,
          "copy": 2, "move": 1.5, "require_group": 0.7}
     if weights:
@@ -290,7 +292,7 @@ def gen_op(rng: random.Random, view: List[Dict[str, Any]], *, depth: int = 3,
         e["p"] = existing_or(0.85)
     elif op == "set_attr":
         e["p"] = list(rng.choice(list(nodes))) if rng.random() < 0.85 else any_path()
-        e["key"] = rng.choice(ABSTRACT_ATTRS)
+        e["key"] = rng.choice(attr_keys)
         e["v"] = rng.choice(attr_values)
     elif op == "del_attr":
         withattr = [p for p, n in nodes.items() if n["a"]]
@@ -300,7 +302,7 @@ def gen_op(rng: random.Random, view: List[Dict[str, Any]], *, depth: int = 3,
             e["key"] = rng.choice(list(nodes[pp]["a"]))
         else:
             e["p"] = list(rng.choice(list(nodes)))
-            e["key"] = rng.choice(ABSTRACT_ATTRS)
+            e["key"] = rng.choice(attr_keys)
     elif op in ("copy", "move"):
         e["p"] = existing_or(0.9)
         if r < 0.8:
